@@ -46,6 +46,16 @@ Proof.
 Qed.
 Print Assumptions C16_built_networks_consistent.
 
+(** (round 5, after repo fix of parse_rxns) the documented meaning of [default_rule] — "used when neither an explicit rule nor
+    a suffix is provided": with suffix parsing ON, a line whose suffix (text after the first "|") carries no rule=… is stored under
+    [default_rule]; one that carries a rule keeps it ([suffix_rule] = the test add_rxn_from_str itself makes).  Before the fix such a
+    line silently got add_rxn's "r" ([ex_default_rule]: rxns_to_hypergraph([..., "2A>>D"], default_rule="R0") now stores R0_1). *)
+Theorem C16_parse_default_rule : ∀ (s : net) (line default_rule : string) (prefer_suffix : bool),
+  parse_rxns s [line] default_rule true prefer_suffix
+  = add_from_str s line (match suffix_rule line with Some _ => None | None => Some default_rule end) true.
+Proof. exact parse_rxns_one. Qed.
+Print Assumptions C16_parse_default_rule.
+
 (** ** Bipartite species/reaction graph *)
 
 (** every export flag combination that exports the reaction ids and the coefficients (string node ids with any prefix
